@@ -217,19 +217,31 @@ class Lattice:
         sym = sym or self.cfg.start
         return {j: self._sym(sym, i, j) for j in range(i, self.n + 1) if self._sym(sym, i, j)}
 
-    @lru_cache(None)
+    # (memo tables live on the instance: a function-level lru_cache would keep every lattice and all
+    # of its trees alive for the life of the worker process)
     def _sym(self, s, i, j):
+        memo = self.__dict__.setdefault("_memo_sym", {})
+        if (s, i, j) in memo:
+            return memo[(s, i, j)]
         cfg = self.cfg
         if s in cfg.terms:
-            return tuple(("T", s, p, e) for (t, p, e) in self.edges(i) if t == s and e == j)
-        res = []
-        for pi, r in cfg.by[s]:
-            for ch in self._seq(r, i, j):
-                res.append(("N", s, pi, ch))
-        return tuple(res)
+            out = tuple(("T", s, p, e) for (t, p, e) in self.edges(i) if t == s and e == j)
+        else:
+            res = []
+            for pi, r in cfg.by[s]:
+                for ch in self._seq(r, i, j):
+                    res.append(("N", s, pi, ch))
+            out = tuple(res)
+        memo[(s, i, j)] = out
+        return out
 
-    @lru_cache(None)
     def _seq(self, r, i, j):
+        memo = self.__dict__.setdefault("_memo_seq", {})
+        if (r, i, j) not in memo:
+            memo[(r, i, j)] = self._seq_compute(r, i, j)
+        return memo[(r, i, j)]
+
+    def _seq_compute(self, r, i, j):
         if not r:
             return ((),) if i == j else ()
         out = []
